@@ -8,24 +8,34 @@ EXTENDS Conn, Json, IOUtils
 Rec == ndJsonDeserialize(IOEnv.TRACE)
 VARIABLE l
 
-IdealKs(rs) == LET id == Ideal(rs) IN [j \in DOMAIN id |-> id[j].k]
+\* refused requests are answered with an error response that does not say which request it answers: k = 0
+IdealKs(rs) == LET id == Ideal(rs) IN [j \in DOMAIN id |-> IF rs[id[j].k].bad THEN 0 ELSE id[j].k]
 Ks(o) == [j \in DOMAIN o.resp |-> o.resp[j].k]
 EndsWithClose(rs) == LET id == Ideal(rs) IN rs[id[Len(id)].k].close
-ExecOK(rs, o) == /\ Ks(o) = IdealKs(rs)
-                 /\ \A j \in DOMAIN o.resp : o.resp[j].body_ok /\ o.resp[j].same /\ o.resp[j].status = 200
+\* a server may also close the connection after an error response
+ClosedAfterError(rs, o) == /\ o.resp # <<>> /\ Len(o.resp) =< Len(IdealKs(rs)) /\ Ks(o) = SubSeq(IdealKs(rs), 1, Len(o.resp))
+                           /\ o.resp[Len(o.resp)].k = 0 /\ o.end \in {"eof", "server-closed", "server-reset", "write-failed"}
+RespOKs(o) == \A j \in DOMAIN o.resp : IF o.resp[j].k = 0 THEN o.resp[j].status >= 400
+                                          ELSE o.resp[j].body_ok /\ o.resp[j].same /\ o.resp[j].status = 200
+ExecStrict(rs, o) ==
+                 /\ Ks(o) = IdealKs(rs)
+                 /\ RespOKs(o)
                  /\ IF EndsWithClose(rs) THEN o.end \in {"close-header", "server-closed", "server-reset", "write-failed"}   \* whatever follows is not read (a client still writing sees a reset)
                     ELSE o.end = "eof" /\ ~o.unread
+ExecOK(rs, o) == (RespOKs(o) /\ ClosedAfterError(rs, o)) \/ ExecStrict(rs, o)
 IsPrefix(s, t) == Len(s) =< Len(t) /\ SubSeq(t, 1, Len(s)) = s
 \* the answered requests are a strictly increasing selection of the expected ones, starting with the first
-Skipping(ks, ideal) == /\ \A j \in DOMAIN ks : \E m \in DOMAIN ideal : ideal[m] = ks[j]
-                       /\ \A j \in 1..(Len(ks) - 1) : ks[j] < ks[j + 1]
-                       /\ (ks # <<>> => ks[1] = ideal[1])
+NZ(sq) == SelectSeq(sq, LAMBDA x : x # 0)
+Skipping(ks, ideal) == LET a == NZ(ks)  b == NZ(ideal) IN
+                       /\ \A j \in DOMAIN a : \E m \in DOMAIN b : b[m] = a[j]
+                       /\ \A j \in 1..(Len(a) - 1) : a[j] < a[j + 1]
+                       /\ Len(ks) - Len(a) =< Len(ideal) - Len(b)          \* no more error responses than refused requests
 Outcome(rs, o) ==
-  IF \E j \in DOMAIN o.resp : o.resp[j].k = 0 THEN "error-response"
+  IF \E j \in DOMAIN o.resp : o.resp[j].k = 0 /\ (j > Len(IdealKs(rs)) \/ IdealKs(rs)[j] # 0) THEN "error-response"
   ELSE IF Ks(o) # IdealKs(rs) THEN (IF Skipping(Ks(o), IdealKs(rs)) THEN "later-request-not-answered"
                                     ELSE IF IsPrefix(IdealKs(rs), Ks(o)) THEN "answered-after-close" ELSE "order-or-attribution")
-  ELSE IF \E j \in DOMAIN o.resp : ~o.resp[j].body_ok THEN "payload"
-  ELSE IF \E j \in DOMAIN o.resp : ~o.resp[j].same THEN "differs-from-fresh-connection"
+  ELSE IF \E j \in DOMAIN o.resp : o.resp[j].k # 0 /\ ~o.resp[j].body_ok THEN "payload"
+  ELSE IF \E j \in DOMAIN o.resp : o.resp[j].k # 0 /\ ~o.resp[j].same THEN "differs-from-fresh-connection"
   ELSE IF o.unread /\ ~EndsWithClose(rs) THEN "input-left-unread" ELSE "end-state-" \o o.end
 \* events of the real session loop (cfg(ohkami_verif) hooks): one parsed/handled/sent per answered request
 CountEv(evs, name, b) == Cardinality({j \in DOMAIN evs : evs[j][1] = name /\ evs[j][3] = b})
@@ -34,6 +44,7 @@ EventsOK(x) == LET good == Cardinality({j \in DOMAIN x.obs.tcp.resp : x.obs.tcp.
                /\ CountEv(evs, "parsed", 0) = CountEv(evs, "handled", 0)
                /\ CountEv(evs, "handled", 0) = CountEv(evs, "sent", 0)
                /\ CountEv(evs, "sent", 0) >= good
+               /\ CountEv(evs, "rejected", 0) = CountEv(evs, "sent", 1)
 
 ScnClass(rs, cs) == IF Coalesced(rs, cs) THEN "coalesced" ELSE IF HeadSplit(rs, cs) THEN "head-split" ELSE "aligned-or-body-split"
 Judge(x) ==
